@@ -46,7 +46,7 @@ impl Behaviour {
 }
 
 /// Which calls of the simulated child fail (indices count calls of that kind across the scenario).
-#[derive(Clone, Debug, Default)]
+#[derive(Clone, Debug, Default, PartialEq, Eq)]
 pub struct Faults {
 	pub spawn: Vec<usize>,
 	pub kill: Vec<usize>,
